@@ -361,7 +361,17 @@ func C03(run *hx.Run) {
 						run.Inconclusive("reference eq query failed: " + err.Error() + " :: " + q)
 						continue
 					}
-					for ki, k := range keys {
+					// every key twice on the warm handle: in generation order (a stored key, then its neighbours) and
+					// again in reverse, so that whatever a lookup leaves behind in cached pages meets another successor
+					order := make([]int, 0, 2*len(keys))
+					for ki := range keys {
+						order = append(order, ki)
+					}
+					for ki := len(keys) - 1; ki >= 0; ki-- {
+						order = append(order, ki)
+					}
+					for oi, ki := range order {
+						k := keys[ki]
 						want := res[ki]
 						var got []hx.Row
 						var err error
@@ -375,6 +385,9 @@ func C03(run *hx.Run) {
 						}
 						run.Eval(1)
 						base := fmt.Sprintf("C03/%s/%s/%s", op, t.Name, c.ix.Name)
+						if oi >= len(keys) {
+							base += "/reverse-order-pass"
+						}
 						detail := hx.M{"profile": d.Profile, "db_seed": d.Seed, "table": t.Name, "index": c.ix.Name, "key": hx.EncodeRow(k)}
 						switch {
 						case pm != "":
